@@ -49,7 +49,7 @@ def gen_line(rng, H=None, pattern=None):
     silent = 1 if rng.random() < 0.12 else 0
     t0 = rng.choice([0, 0, 5 * S, 123456789, rng.randrange(0, 100 * S)])
     hb20 = H + H // 5
-    pattern = pattern or rng.choice(['silent', 'silent', 'peerhb', 'answer', 'appsend', 'testreqs', 'mix', 'mix', 'irregular', 'logout'])
+    pattern = pattern or rng.choice(['silent', 'silent', 'peerhb', 'answer', 'appsend', 'testreqs', 'mix', 'mix', 'irregular', 'logout', 'gap', 'gap'])
     horizon = min(2 * hb20 + H + 8, 330)
     evs = []         # (time, text)
     cadence_irregular = pattern in ('irregular',) or rng.random() < 0.2
@@ -100,13 +100,23 @@ def gen_line(rng, H=None, pattern=None):
                 evs.append((k, 'R%d,0,%s' % (k, rng.choice([b'TEST', b'other']).hex())))
             elif c < 0.65:
                 evs.append((k, 'R%d,1,%s' % (k, rng.choice([b'TEST', b'abc', b'Q']).hex())))
-            elif c < 0.8:
+            elif c < 0.75:
                 evs.append((k, 'R%d,D' % k))
+            elif c < 0.82:
+                evs.append((k, 'R%d,G' % k))
             else:
                 evs.append((k, 'S%d' % k))
     elif pattern == 'logout':
         k = at(rng.random() * 0.7)
         evs.append((k, 'R%d,5' % k))
+    elif pattern == 'gap':
+        # a message ahead of sequence early on (the session asks for a resend and waits in resend_request_sent), then the peer is silent or
+        # only sends further traffic: the supervision must go on probing and finally log out
+        k = at(rng.random() * 0.25)
+        evs.append((k, 'R%d,G' % k))
+        if rng.random() < 0.4:
+            k2 = at(0.3 + rng.random() * 0.3)
+            evs.append((k2, rng.choice(['R%d,0', 'R%d,D', 'S%d', 'R%d,G']) % k2))
     evs.sort(key=lambda e: (e[0], e[1][0] != 'R'))     # stable: inbound before a tick of the same instant
     return 'hb %s %d %d %d %d %s' % (role, H, hb0, silent, t0, ';'.join(e[1] for e in evs))
 
@@ -164,6 +174,7 @@ def oracle(line, out):
     pending = None          # time of the TestRequest that is waiting for its Heartbeat
     dead = False
     hard, early = [], 0
+    prev_st = segs[0]['st']
     for e, sg in zip(evs, segs[1:]):
         p = e[1:].split(',')
         now = int(p[0])
@@ -209,7 +220,14 @@ def oracle(line, out):
                 pending = now
         elif e[0] == 'R':
             last_recv = now
-            if p[1] == '1':
+            if p[1] == 'G':
+                # a message ahead of sequence: in the continuous state a ResendRequest and nothing else; in any other state the session stops
+                if prev_st == 'continuous':
+                    if types != ['2'] or sg['st'] != 'resend_request_sent':
+                        hard.append('gap at %d in the continuous state: wrote %s, state %s' % (now, types, sg['st']))
+                elif types or not sg['sd']:
+                    hard.append('gap at %d in state %s: wrote %s, shutdown=%s' % (now, prev_st, types, sg['sd']))
+            elif p[1] == '1':
                 want = p[2] if len(p) > 2 else '-'
                 if len(sg['frames']) != 1 or types != ['0'] or sg['frames'][0].get('112', '-') != want:
                     hard.append('TestRequest %s at %d not answered by exactly one Heartbeat with that TestReqID' % (want, now))
@@ -231,6 +249,7 @@ def oracle(line, out):
             last_send = now
         if sg['st'] == 'session_terminated' or sg['sd']:
             dead = True
+        prev_st = sg['st']
     if hard:
         return (False, None)
     if early:
